@@ -678,6 +678,14 @@ class Interp:
             ty, var, names, ops = rv[1], rv[2], rv[3], rv[4]
             vals = [self.operand(frame, x) for x in ops]
             if var is None:
+                if ty.startswith('__') and not vals:
+                    # serde derive: `__Field::__fieldN` / `__Field::__ignore` (field-identifier enum, not in the sources)
+                    m = re.match(r'__field(\d+)$', ty)
+                    if m:
+                        return Adt('__Field', int(m.group(1)), [])
+                    if ty == '__ignore':
+                        import models_serde
+                        return Adt('__Field', models_serde.ignore_index(self, lty), [])
                 if names is not None:
                     self.prog.note_fields(ty, names)
                 elif ty not in self.prog.fields:
@@ -841,6 +849,8 @@ class Interp:
         w = self.world
         st = w.stats
         st.funcs[fn.name] = st.funcs.get(fn.name, 0) + 1
+        if fn.name in mirparse.AMBIGUOUS:
+            raise Unsupported('two different bodies are printed under the name ' + fn.name)
         blocks = fn.parsed()
         nloc = max(fn.locals) + 1 if fn.locals else 1
         frame = [None] * nloc
